@@ -49,7 +49,8 @@ func VerifC03Placement() {
 	verif.AddField(req, &verif.FieldDesc{FName: "term", FJSON: "term", FKind: qkind, FNumber: 2, FOpts: qo}, "Term")
 	verb := http.HttpMethod(verif.Choice("verb", 6))
 	bodyVerb := verb != http.HttpMethod_HTTP_METHOD_GET && verb != http.HttpMethod_HTTP_METHOD_DELETE
-	if bodyVerb {
+	if bodyVerb && verif.Bool("request.hasUnboundField") {
+		// without it every field of the request is named by the URL configuration
 		verif.AddField(req, &verif.FieldDesc{FName: "note", FJSON: "note", FKind: protoreflect.StringKind, FNumber: 3, FOpts: &descriptorpb.FieldOptions{}}, "Note")
 	}
 	mo := &descriptorpb.MethodOptions{}
@@ -94,6 +95,16 @@ func VerifC03Placement() {
 	verif.Assert("C03/placement/path-variable-in-path-everywhere", verif.And(srvPath, gcPath, tcPath, tsPath, opPath))
 	verif.Assert("C03/placement/go-client=ts-client/query", gcQuery == tcQuery)
 	verif.Assert("C03/placement/go-server=openapi/query", srvQuery == opQuery)
+	// the body: POST, PUT and PATCH requests carry one, GET and DELETE requests do not, for every generator
+	_, _, _, _, gcBody := clientgen.VerifRoute(svc, m)
+	_, _, _, _, tcBody := tsclientgen.VerifRoute(svc, m)
+	_, _, _, _, tsBody, _ := tsservergen.VerifRoute(svc, m)
+	opBody := openapiv3.VerifHasRequestBody(svc, m)
+	verif.Show("body", map[bool]string{true: "1", false: "0"}[gcBody]+map[bool]string{true: "1", false: "0"}[tcBody]+map[bool]string{true: "1", false: "0"}[tsBody]+map[bool]string{true: "1", false: "0"}[opBody])
+	verif.Assert("C03/placement/body-travels-iff-body-verb/go-client", gcBody == bodyVerb)
+	verif.Assert("C03/placement/body-travels-iff-body-verb/ts-client", tcBody == bodyVerb)
+	verif.Assert("C03/placement/body-travels-iff-body-verb/ts-server", tsBody == bodyVerb)
+	verif.Assert("C03/placement/body-travels-iff-body-verb/openapi", opBody == bodyVerb)
 	if bodyVerb {
 		// known finding: on POST/PUT/PATCH a query-annotated field is published as a query
 		// parameter (OpenAPI, Go server) but sent in the body by both clients and not parsed
